@@ -1002,6 +1002,34 @@ func TestVerifC22Configs(t *testing.T) {
 		for n := rng.IntN(3); n > 0; n-- {
 			c.Outbound = append(c.Outbound, c22GenRule(rng, tabs))
 		}
+		if rng.IntN(5) == 0 {
+			// related rules: a rule with several selectors and a narrow local_cidr, followed by a rule that repeats ONE of its
+			// selectors (same proto / port / ca) with a different local_cidr. Each rule must keep meaning what its own text says.
+			tbl := &c.Inbound
+			if rng.IntN(3) == 0 {
+				tbl = &c.Outbound
+			}
+			port, proto := c16Pick(rng, []string{"80", "any", "80-81", "443"}), c16Pick(rng, []string{"tcp", "udp", "any"})
+			lc := []string{"10.0.0.1/32", "192.168.0.0/24", "192.168.0.64/26", "10.0.0.0/16", "any"}
+			sel := map[string]c22Val{"host": c22S(c16Pick(rng, []string{"host-a", "host-b"})), "group": c22S(c16Pick(rng, []string{"g1", "g2"})), "cidr": c22S(c16Pick(rng, []string{"10.0.1.0/24", "10.0.1.7/32", "10.0.0.0/16"}))}
+			keys := []string{"host", "group", "cidr"}
+			rng.Shuffle(len(keys), func(i, j int) { keys[i], keys[j] = keys[j], keys[i] })
+			nsel := 2 + rng.IntN(2)
+			first := c22RuleDoc{Fields: []c22Field{{"port", c22S(port)}, {"proto", c22S(proto)}, {"local_cidr", c22S(lc[rng.IntN(3)])}}}
+			for _, k := range keys[:nsel] {
+				first.Fields = append(first.Fields, c22Field{k, sel[k]})
+			}
+			rk := keys[rng.IntN(nsel)]
+			if rk == "group" && rng.IntN(2) == 0 {
+				rk = keys[(slices.Index(keys, "group")+1)%nsel]
+			}
+			second := c22RuleDoc{Fields: []c22Field{{"port", c22S(port)}, {"proto", c22S(proto)}, {rk, sel[rk]}, {"local_cidr", c22S(lc[rng.IntN(len(lc))])}}}
+			if rng.IntN(4) == 0 {
+				first, second = second, first
+			}
+			*tbl = append(*tbl, first, second)
+			r.Count("configs_with_related_rule_pairs", 1)
+		}
 		if rng.IntN(100) == 0 {
 			c.InboundRaw = c16Pick(rng, []string{"{port: 80, proto: tcp, host: any}", "5", "any"})
 		}
